@@ -259,6 +259,7 @@ class Reset(Driver):
                 ops.append(['manual', b, 'commit'])
             if ws:
                 ops.append(['manual', ws[0], 'merge'])
+                ops.append(['manual', ws[-1], 'resolve'])
             if self.ops:
                 ops = [o for o in ops if o[0] in self.ops or
                        (o[0] == 'seq' and 'merge_pr2' in self.ops)]
